@@ -128,6 +128,12 @@ func (c13) Gen(r *sim.Rand, tier string, run uint64) *sim.Scenario {
 			if r.Chance(1, 15) {
 				dev = -1 // Attach(nil, ...): detaches an aligned range; mis-aligned, it is rejected like any other
 			}
+			if r.Chance(1, 30) {
+				// an end given exclusively, beyond the 24-bit space and not aligned: rejected
+				big := int64(sim.PickInt(r, 0x1000000, 0x1000001, 0xFFFFFFFE, 0x1000008))
+				ops = append(ops, sim.Op{K: "attach", N: []int64{int64(r.Intn(ndev)), s &^ 0xF, big, 1}})
+				continue
+			}
 			ops = append(ops, sim.Op{K: "attach", N: []int64{dev, s, e}})
 			edges = append(edges, s, e)
 			if r.Chance(1, 150) {
@@ -357,6 +363,31 @@ func (c13) Exec(sc *sim.Scenario, env *sim.Env) *sim.Violation {
 			dev := int(op.Arg(0))
 			if dev < 0 || dev >= ndev {
 				dev = 0
+			}
+			if op.Arg(3) == 1 {
+				// end beyond 24 bits, mis-aligned: must be rejected and route nothing
+				s, e := uint32(op.Arg(1))&0xFFFFF0, uint32(op.Arg(2))
+				if (e+1)&0xF == 0 {
+					continue // (an aligned one makes the pinned tree index past its table: not asked)
+				}
+				var aerr error
+				p, pv := sim.RecoverLib(func() { aerr = b.Attach(devs[dev], "far", s, e) })
+				if p {
+					return &sim.Violation{Oracle: "attach_panic", Step: i, Msg: fmt.Sprintf("Attach(%06x,%08x) panicked: %s", s, e, sim.PanicString(pv))}
+				}
+				if aerr == nil {
+					return &sim.Violation{Oracle: "attach_outcome", Step: i, Msg: fmt.Sprintf("Attach(%06x,%08x): the end is not 16-byte aligned but no error", s, e)}
+				}
+				st.Fault("attach_rejected")
+				nontrivial = true
+				for _, a := range []uint32{s, 0xFFFFFF, 0xFFFFF0, (s + 0x10) & 0xFFFFFF} {
+					if v := spot(a); v != nil {
+						v.Step = i
+						v.Msg = fmt.Sprintf("after the rejected Attach(%06x,%08x): ", s, e) + v.Msg
+						return v
+					}
+				}
+				continue
 			}
 			s, e := uint32(op.Arg(1))&0xFFFFFF, uint32(op.Arg(2))&0xFFFFFF
 			if e < s {
